@@ -30,7 +30,10 @@ RULE = ("a case = (byte string, chunking, construction route): exhaustive string
         "bytes as separate symbolic chunks and as one mixed numeral/unknown symbolic chunk; random strings up to 4 KiB over "
         "a pool biased to PUSHn/JUMPDEST/harvested literals ±1 with random chunkings; per case every pc in 0..len+1 is decoded, "
         "every (start,size) slice of the small scope is read; SEVM jump programs = JUMP/JUMPI (constant true/false and "
-        "symbolic condition) to every position 0..len+1 of generated bodies; distinct = distinct (string, chunking); non-trivial = "
+        "symbolic condition) to every position 0..len+1 of generated bodies; trace programs = random block programs with forward "
+        "and backward JUMP / JUMPI (literal true/false, symbolic CALLVALUE condition, MSIZE-guarded loops) whose destinations "
+        "are drawn from all JUMPDESTs of the code incl. pc 0, the last byte and the byte after a PUSH32 operand, final "
+        "(status, pc, stack of PC-trail values) compared with the Lean reference executor Spec.Code.run; distinct = distinct (string, chunking); non-trivial = "
         "every case (each one decodes real bytes)")
 TRUSTED = [
     "ByteVec content semantics (get_byte / slice are zero beyond the end) is modelled by content only; its chunk bookkeeping is C07",
@@ -895,6 +898,279 @@ def _invalid_class(code, t):
 
 
 # --------------------------------------------------------------------------------------------------------------------
+# SEVM trace programs: where does execution continue after a taken jump?
+
+TRACE_FUEL = 200
+TRACE_DEPTH = 2000
+
+def _asm(*items):
+    """tiny assembler: int = byte, bytes = raw, "name:" = label definition, "@name" = 2-byte big-endian label reference"""
+    labels, pos = {}, 0
+    for it in items:
+        if isinstance(it, str) and it.endswith(":"):
+            labels[it[:-1]] = pos
+        elif isinstance(it, str):
+            pos += 2
+        elif isinstance(it, bytes):
+            pos += len(it)
+        else:
+            pos += 1
+    out = bytearray()
+    for it in items:
+        if isinstance(it, str) and it.endswith(":"):
+            continue
+        if isinstance(it, str):
+            out += labels[it[1:]].to_bytes(2, "big")
+        elif isinstance(it, bytes):
+            out += it
+        else:
+            out.append(it)
+    return bytes(out).hex()
+
+
+_GUARD = (0x59, 0x61, "@exit", 0x57, 0x60, 0x01, 0x5F, 0x52)     # MSIZE PUSH2 exit JUMPI ; PUSH1 1 PUSH0 MSTORE
+_EXIT = ("exit:", 0x5B, 0x58, 0x00)                                # JUMPDEST PC STOP
+
+# directed programs (three of them are also kept as corpus files corpus/C19/trace-*.json)
+TRACE_DIRECTED = {
+    # JUMPDEST at pc 0; backward JUMP to 0 guarded by MSIZE so that it terminates
+    "jump-back-to-pc0": _asm("top:", 0x5B, 0x58, *_GUARD, 0x61, "@top", 0x56, 0xFE, *_EXIT),
+    # same with JUMPI on a literal true condition
+    "jumpi-true-back-to-pc0": _asm("top:", 0x5B, 0x58, *_GUARD, 0x60, 0x01, 0x61, "@top", 0x57, 0xFE, *_EXIT),
+    # symbolic condition: both branches; the taken one goes back to pc 0
+    "jumpi-sym-back-to-pc0": _asm("top:", 0x5B, 0x58, *_GUARD, 0x34, 0x61, "@top", 0x57, 0x58, 0x00, *_EXIT),
+    # SEVM.jumpi with only the true branch feasible (second JUMPI on the same symbolic condition) back to pc 0
+    "jumpi-sym-only-true-back-to-pc0": _asm("top:", 0x5B, 0x58, *_GUARD, 0x34, 0x61, "@a", 0x57, 0x58, 0x00,
+                                            "a:", 0x5B, 0x34, 0x61, "@top", 0x57, 0xFE, *_EXIT),
+    # control: the same loop with the JUMPDEST at pc 1
+    "jump-back-to-pc1": _asm(0x58, "top:", 0x5B, 0x58, *_GUARD, 0x61, "@top", 0x56, 0xFE, *_EXIT),
+    # destination = last byte of the code, one right after a PUSH32 operand, one inside the operand
+    "jump-to-last-byte": _asm(0x61, "@last", 0x56, 0xFE, 0x00, "last:", 0x5B),
+    "jump-after-push32": _asm(0x61, "@a", 0x56, 0xFE, 0x7F, bytes([0x5B] * 32), "a:", 0x5B, 0x58, 0x00),
+    "jump-into-push32-data": _asm(0x61, "@a", 0x56, 0xFE, 0x7F, bytes([0x5B] * 5), "a:", bytes([0x5B] * 27), 0x5B, 0x58, 0x00),
+    "jumpi-true-to-last-byte-after-push32": _asm(0x60, 0xFF, 0x61, "@last", 0x57, 0xFE, 0x7F, bytes([0x5B] * 32), "last:", 0x5B),
+}
+
+
+def gen_trace_program(rng):
+    """random jump program; returns code bytes.  Labels are known by construction (no oracle involved)."""
+    blocks = []   # list of lists of items: int byte | ("T",) placeholder for a 2-byte target
+    genuine = []  # (block index, offset inside block) of JUMPDEST opcodes placed at instruction boundaries
+    bad = []      # 0x5b bytes placed inside PUSH data
+
+    def add(items, g=(), b=()):
+        i = len(blocks)
+        blocks.append(items)
+        genuine.extend((i, o) for o in g)
+        bad.extend((i, o) for o in b)
+
+    T = ("T",)
+    if rng.random() < 0.75:
+        add([0x5B, 0x58], g=[0])                      # JUMPDEST at pc 0, then PC (trail)
+    nb = rng.randrange(3, 9)
+    for _ in range(nb):
+        r = rng.random()
+        if r < 0.16:
+            add([0x5B, 0x58], g=[0])
+        elif r < 0.22:
+            add([0x5B], g=[0])
+        elif r < 0.32:
+            data = [rng.choice((0x5B, 0x5B, 0x58, 0x00, 0x56, 0x57, 0x60)) for _ in range(32)]
+            add([0x7F] + data + [0x5B, 0x58], g=[33], b=[1 + i for i, x in enumerate(data) if x == 0x5B])
+        elif r < 0.37:
+            add([0x60, 0x5B], b=[1])
+        elif r < 0.50:
+            add([0x61, T, 0x56])
+        elif r < 0.60:
+            add([0x60, rng.choice((1, 2, 0xFF)), 0x61, T, 0x57])
+        elif r < 0.66:
+            add([0x60, 0x00, 0x61, T, 0x57])
+        elif r < 0.78:
+            add([0x34, 0x61, T, 0x57])
+        elif r < 0.90:
+            add([0x59, 0x61, T, 0x57, 0x60, 0x01, 0x5F, 0x52])     # MSIZE guard, then grow memory
+        elif r < 0.95:
+            add([0x00])
+        elif r < 0.98:
+            add([0x58])
+        else:
+            add([0xFE])
+    if rng.random() < 0.5:
+        add([0x5B], g=[0])                            # JUMPDEST as the last byte of the code
+    # layout
+    starts, pos = [], 0
+    for blk in blocks:
+        starts.append(pos)
+        pos += sum(2 if it == T else 1 for it in blk)
+    n = pos
+
+    def addr(i, o):
+        # offset o counts items; convert to bytes
+        blk = blocks[i]
+        return starts[i] + sum(2 if it == T else 1 for it in blk[:o])
+    glabels = [addr(i, o) for i, o in genuine]
+    blabels = [addr(i, o) for i, o in bad]
+    code = bytearray()
+    for blk in blocks:
+        for it in blk:
+            if it == T:
+                r = rng.random()
+                if glabels and r < 0.70:
+                    # bias to the boundary positions: pc 0, the last byte, right after a PUSH32 operand
+                    special = [g for g in glabels if g == 0 or g == n - 1]
+                    t = rng.choice(special) if special and rng.random() < 0.5 else rng.choice(glabels)
+                elif blabels and r < 0.85:
+                    t = rng.choice(blabels)
+                else:
+                    t = rng.choice((0, n - 1, n, n + 1, rng.randrange(n + 1)))
+                code += t.to_bytes(2, "big")
+            else:
+                code.append(it)
+    return bytes(code)
+
+
+def parse_run(line):
+    kv = dict(p.split("=", 1) for p in line.split(" "))
+    stack = [] if kv["stack"] == "-" else [int(x, 16) for x in kv["stack"].split(",")]
+    trace = [] if kv["trace"] == "-" else [int(x) for x in kv["trace"].split(",")]
+    return {"halt": kv["halt"], "pc": int(kv["pc"]), "stack": stack, "cv": kv["cv"] == "1", "trace": trace}
+
+
+def outcome_of_spec(r):
+    if r["halt"] == "stop":
+        return ("stop", r["pc"], tuple(r["stack"]))
+    return (r["halt"], r["pc"], None)
+
+
+def dest_class(code, runs):
+    """which boundary destinations do the taken jumps of the reference runs hit (for stable violation keys / histogram)"""
+    cls = set()
+    for r in runs:
+        tr = r["trace"]
+        for a, b in zip(tr, tr[1:], strict=False):
+            if a < len(code) and code[a] in (0x56, 0x57) and b != a + 1:
+                if b == 0:
+                    cls.add("pc0")
+                elif b == len(code) - 1:
+                    cls.add("last-byte")
+                elif b >= 33 and code[b - 33] == 0x7F:
+                    cls.add("after-push32")
+                else:
+                    cls.add("other")
+                if b <= a:
+                    cls.add("backward")
+    for c in ("pc0", "last-byte", "after-push32", "other"):
+        if c in cls:
+            return c + ("+backward" if "backward" in cls and c != "pc0" else ""), cls
+    return "no-taken-jump", cls
+
+
+_ERRMAP = {"InvalidJumpDestError": "invalidjump", "StackUnderflowError": "underflow", "InvalidOpcode": "invalidopcode"}
+
+
+def run_trace_real(sevmdrv, sevm, args, pgm):
+    outs = []
+    for ex in sevm.run(sevmdrv.mk_ex(sevm, args, pgm)):
+        err = ex.context.output.error
+        if err is None:
+            vals = []
+            for x in reversed(ex.st.stack):     # top first
+                v = getattr(x, "value", x)
+                vals.append(v if isinstance(v, int) and not isinstance(v, bool) else "sym")
+            outs.append(("stop", ex.pc, tuple(vals)))
+        else:
+            nm = type(err).__name__
+            outs.append((_ERRMAP.get(nm, nm), ex.pc, None))
+    return sorted(outs, key=repr)
+
+
+def check_trace_program(ctx, name, code, specs, sevmdrv, sevm, args, rng, layout=None):
+    """specs = (run with callvalue 0, run with callvalue 1); returns True if a violation was reported"""
+    h = H()
+    Contract, ByteVec = h["Contract"], h["ByteVec"]
+    r0, r1 = specs
+    if r0["halt"] in ("fuel", "unsupported") or r1["halt"] in ("fuel", "unsupported"):
+        ctx.count("sevm-trace:skipped:" + (r0["halt"] if r0["halt"] in ("fuel", "unsupported") else r1["halt"]))
+        return False
+    o0, o1 = outcome_of_spec(r0), outcome_of_spec(r1)
+    uses_cv = r0["cv"] or r1["cv"]
+    expected = sorted([o0, o1], key=repr) if uses_cv else [o0]
+    lay = layout if layout is not None else rng.randrange(3)
+    if lay == 0 or len(code) < 2:
+        pgm = Contract(code)
+    elif lay == 1:
+        cut = rng.randrange(1, len(code))
+        pgm = Contract(ByteVec([code[:cut], code[cut:]]))
+    else:
+        pgm = Contract.from_hexcode(code.hex())
+    try:
+        got = run_trace_real(sevmdrv, sevm, args, pgm)
+    except Exception as e:  # noqa: BLE001
+        ctx.violation(f"sevm-trace:exception:{type(e).__name__}", f"SEVM.run raised {type(e).__name__}: {e} on {code.hex()}",
+                      {"sevm_trace": code.hex(), "name": name})
+        return True
+    cls, allcls = dest_class(code, (r0, r1))
+    ctx.count("sevm-trace:dest:" + cls)
+    for c in allcls:
+        ctx.count("sevm-trace:hits:" + c)
+    ctx.count("sevm-trace:" + ("symbolic-cond" if uses_cv else "concrete"))
+    ctx.case(("sevm-trace", code, lay))
+    ok = got == expected
+    if not ok and uses_cv and o1[0] == "invalidjump" and got == [o1]:
+        # known (C01 finding): a symbolic-condition JUMPI to an invalid destination loses the fall-through path
+        ctx.count("sevm:note:jumpi-symbolic-cond-invalid-target-drops-fallthrough-path")
+        ok = True
+    if not ok:
+        exp_halts = "+".join(sorted({e[0] for e in expected}))
+        got_halts = "+".join(sorted({g[0] for g in got})) or "no-path"
+        ctx.violation(f"sevm-trace:jump-to-{cls}:expected-{exp_halts}",
+                      f"program {code.hex()} [{name}]: the EVM continues as {expected} (status, final pc, stack top first; "
+                      f"reference traces {r0['trace']} / {r1['trace']}), SEVM.run gave {got} [{got_halts}]",
+                      {"sevm_trace": code.hex(), "name": name})
+        return True
+    return False
+
+
+def trace_corpus():
+    d = VERIF / "corpus" / ID
+    out = {}
+    if d.is_dir():
+        for p in sorted(d.glob("*.json")):
+            try:
+                data = json.loads(p.read_text())
+            except Exception:  # noqa: BLE001
+                continue
+            r = data.get("replay", data)
+            if "sevm_trace" in r:
+                out["corpus:" + p.stem] = bytes.fromhex(r["sevm_trace"])
+    return out
+
+
+def sevm_trace_section(ctx, rng, lean):
+    from vlib import sevmdrv
+    sevm, args = sevmdrv.mk_sevm(depth=TRACE_DEPTH)
+    progs = list(trace_corpus().items())
+    progs += [("directed:" + k, bytes.fromhex(v)) for k, v in TRACE_DIRECTED.items()]
+    ctx.count("sevm-trace:corpus+directed", len(progs))
+    seen = {c for _, c in progs}
+    for i in range(ctx.scale(1200, 8000)):
+        code = gen_trace_program(rng)
+        if code not in seen:
+            seen.add(code)
+            progs.append((f"random:{i}", code))
+    lines = []
+    for _, code in progs:
+        lines.append(f"spec-run {code.hex()} 0 {TRACE_FUEL}")
+        lines.append(f"spec-run {code.hex()} 1 {TRACE_FUEL}")
+    replies = lean.ask(lines)
+    for k, (name, code) in enumerate(progs):
+        specs = (parse_run(replies[2 * k]), parse_run(replies[2 * k + 1]))
+        layouts = (0, 1, 2) if not name.startswith("random") else (None,)
+        for lay in layouts:
+            check_trace_program(ctx, name, code, specs, sevmdrv, sevm, args, rng, layout=lay)
+
+
+# --------------------------------------------------------------------------------------------------------------------
 
 def run_cases(ctx, cases, rng, small, label, extra_slices_fn=None):
     lean = ctx.lean("Code")
@@ -1077,6 +1353,10 @@ def correspond(ctx):
     sevm_section(ctx, rng, lits, lean)
 
     _lap(ctx, "sevm")
+    # 4b. where execution continues after a taken jump (destinations include pc 0, the last byte, right after a PUSH32)
+    sevm_trace_section(ctx, rng, lean)
+
+    _lap(ctx, "sevm-trace")
     # 5. the Lean counterexample of `accepts_every_known_jumpdest_cex`, replayed on the real code
     replay_numeral_witness(ctx)
     ctx.sample({"example_case": builtin[5].key(), "meaning": "PUSH32 whose 32 data bytes are one symbolic chunk, then JUMPDEST STOP"})
@@ -1095,6 +1375,17 @@ def replay_numeral_witness(ctx):
 
 def replay(ctx, data) -> bool:
     r = data.get("replay", data)
+    if "sevm_trace" in r:
+        from vlib import sevmdrv
+        sevm, args = sevmdrv.mk_sevm(depth=TRACE_DEPTH)
+        code = bytes.fromhex(r["sevm_trace"])
+        rep = ctx.lean("Code").ask([f"spec-run {code.hex()} 0 {TRACE_FUEL}", f"spec-run {code.hex()} 1 {TRACE_FUEL}"])
+        before = len(ctx.violations)
+        check_trace_program(ctx, r.get("name", "replay"), code, (parse_run(rep[0]), parse_run(rep[1])), sevmdrv, sevm, args,
+                            ctx.rng, layout=0)
+        for v in ctx.violations[before:]:
+            print(f"  {v['key']}: {v['what']}")
+        return len(ctx.violations) > before
     if "sevm" in r:
         h = H()
         from vlib import sevmdrv
